@@ -115,6 +115,26 @@ for _n, _bad in _STDIO_CASES:
 WITNESSES.append({"match": r"lspmsg\.", "kind": "lsp-stdio", "props": ["C28"], "input": _stdio_session(_STDIO_CASES[1][1]), "timeout": 60, "expect": {"py": _STDIO_ORACLE, "exit": 0},
                   "note": "a framed message with a truncated JSON body, then ordinary requests, through the real stdin loop"})
 
+# a document that imports a file on disk: the diagnostics of the imported file carry offsets into that file, which
+# can lie beyond the end of the open document
+_LIB_BAD = "// " + "padding " * 40 + "\npublic fun ok(): Int { 1 }\n" + "// more padding\n" * 8 + "fun broken( { \n"
+_LIB_WARN = "// " + "padding " * 60 + "\npublic fun ok(): Int {\n  let unused = 1\n  2\n}\n"
+for _n, _lib in (("import_of_a_file_with_a_parse_error", _LIB_BAD), ("import_of_a_file_with_a_warning", _LIB_WARN)):
+    _uri = "file://{tmpdir}/main.gdn"
+    _msgs = [{"jsonrpc": "2.0", "id": 1, "method": "initialize", "params": {}},
+             {"jsonrpc": "2.0", "method": "textDocument/didOpen", "params": {"textDocument": {"uri": _uri, "languageId": "garden", "version": 1, "text": "import \"./lib.gdn\"\n"}}},
+             {"jsonrpc": "2.0", "id": 2, "method": "textDocument/documentSymbol", "params": {"textDocument": {"uri": _uri}}},
+             {"jsonrpc": "2.0", "method": "textDocument/didChange", "params": {"textDocument": {"uri": _uri, "version": 2}, "contentChanges": [{"text": "import \"./lib.gdn\" as l\nl::ok()\n"}]}},
+             {"jsonrpc": "2.0", "id": 3, "method": "textDocument/hover", "params": {"textDocument": {"uri": _uri}, "position": {"line": 1, "character": 4}}},
+             {"jsonrpc": "2.0", "id": 4, "method": "shutdown"}, {"jsonrpc": "2.0", "method": "exit"}]
+    _or = ("(lambda got: ('responses carry ids %r; expected 1, 2, 3, 4 each once' % (got,)) if sorted(x for x in got if x in (1, 2, 3, 4)) != [1, 2, 3, 4] else '')"
+           "([o.get('id') for o in jsons(full_out) if 'id' in o and 'method' not in o])")
+    BOUNDED.append({"name": "stdio_session:" + _n, "kind": "lsp-stdio", "props": ["C28"], "input": _msgs, "extra_files": {"lib.gdn": _lib}, "n_inputs": 1, "timeout": 60,
+                    "expect": {"py": _or, "exit": 0},
+                    "bound": "one session with the real `garden lsp` loop: a one-line document that imports a longer file on disk (%s), opened and changed: every request is answered, exit status 0" % _n.replace("_", " ")})
+    WITNESSES.append({"match": r"lspmsg\.|lsppos\.", "kind": "lsp-stdio", "props": ["C28", "C29"], "input": _msgs, "extra_files": {"lib.gdn": _lib}, "timeout": 60, "expect": {"py": _or, "exit": 0},
+                      "note": "a document that imports a longer file with diagnostics"})
+
 
 def build(tier):
     u = UnitFile("lspmsg")
